@@ -563,6 +563,9 @@ func callSSA(i *interpreter, caller *frame, callpos token.Pos, fn *ssa.Function,
 		if ext := externals[name]; ext != nil {
 			return ext(fr, args)
 		}
+		if strings.HasPrefix(name, "unique.Make[") {
+			return extUniqueMake(fr, args)
+		}
 		if fn.Blocks == nil {
 			if ext := externalFallback(fn); ext != nil {
 				return ext(fr, args)
@@ -735,4 +738,19 @@ func (in *interpreter) addrOf(p *value) uintptr {
 	in.nextAddr += 64
 	in.addrs[p] = 0xc000000000 + in.nextAddr
 	return in.addrs[p]
+}
+
+// findMethod returns the exported method name of dynamic type T, or nil.
+func (in *interpreter) findMethod(T types.Type, name string) *ssa.Function {
+	if T == nil {
+		return nil
+	}
+	if _, ok := T.Underlying().(*types.Interface); ok {
+		return nil
+	}
+	sel := in.prog.MethodSets.MethodSet(T).Lookup(nil, name)
+	if sel == nil {
+		return nil
+	}
+	return in.prog.MethodValue(sel)
 }
